@@ -57,7 +57,10 @@ def evaluate(ctx, P, env, cases, with_model=True):
             elif s_outs[i] != co:
                 why = "implementation result differs from specification result"
         if why is None and hasattr(P, "judge_all"):
-            why = P.judge_all(c, co)
+            try:
+                why = P.judge_all(c, co)
+            except Exception as e:          # a judge must never hide a failure
+                why = "judge raised %r on %s" % (e, core.short(co))
         rec = {"op": c.op, "c_out": co, "note": c.note, "tags": sorted(c.tags)}
         if i in s_outs:
             rec["spec_op"] = c.spec
